@@ -467,3 +467,7 @@ def run(ctx):
     from rules import round4
     round4.share(ctx, "R17.6", "C06", lambda i_: i_["rule"] == "R6.3" and i_["inst"].startswith("mark:"), "cpu-row:",
                  "a warming thread's marks show on the CPU and the running thread's marks vanish", 2)
+    ctx.rule("R17.7", "every label of every stream is checked against what other threads defined: parse_labels hands "
+             "each label to add_label - also when the value already has a label - and fails when add_label refuses")
+    from rules import round5
+    round5.check_every_label_goes_through_add_label(ctx, "R17.7")
